@@ -284,6 +284,7 @@ func buildProperties() []Property {
 			Decides:    "integer evaluables never route through float64; full-range + - * neg are paired with an int_overflow branch; / % divisors and shift counts are guarded; float->integer conversions are range-guarded with the actual constants; the 2x2 type dispatch of the six comparison predicates and of the mixed-mode arithmetic computes the operator the ISO name prescribes. Arithmetic inspects operand types only after resolution. float_overflow is raised only under a test of the computed result for infinity or under a pre-check that knows the sign of every operand it multiplies or divides the bound by.",
 			NotDecided: "value correctness of guards that are present but wrong (the sign error in mulF/divF, O2), IEEE results of the float functions, deeper expression trees.",
 			Rules: []RuleDef{
+				{"R-FLOAT-RESULT-FINITE", 4, ruleFloatResultFinite},
 				{"R-FLOAT-FINITE", 1, ruleFloatFinite},
 				{"R-RESOLVE-ALL", 6, ruleResolveAll("C07")},
 				{"R-INT-EXACT", 10, ruleIntExact},
